@@ -13,6 +13,9 @@ picks which enabled thread runs next (`chooser`), so a schedule is a list of thr
    always enabled and the step takes the timeout branch exactly when the awaited condition does not hold;
  * `Thread.start()` raises RuntimeError for the start indices listed in `Scheduler.fail_starts` (environment choice,
    part of the program, so replayable); the step in which it happened is marked (`Step.fail`);
+ * `Event.set()` of the kinds listed in `Scheduler.post_set` yields a second time AFTER the flag has been raised
+   (`<kind>.published`): an event that publishes plain fields (a future's data / exception) is only as good as the
+   order "fields first, flag last", and a reader must be able to run between the flag and the writer's next line;
  * no enabled thread and no pending timeout: the run is reported as a DEADLOCK (never hangs; a
    real-time watchdog is the backstop);
  * unmanaged threads (the controller) pass straight through every shim operation.
@@ -103,6 +106,9 @@ class Scheduler(object):
         self.n_workers = 0
         self.n_starts = 0  # Thread.start() calls so far (failed ones included)
         self.fail_starts = frozenset()  # indices of the Thread.start() calls that raise RuntimeError
+        # kinds of Event whose set() is TWO scheduling points: `<kind>.set` before the flag is raised (as every operation)
+        # and `<kind>.published` after it, before set() returns (opt-in: harness/poolcommon.py asks for "fut")
+        self.post_set = frozenset()
         self.after_step = None  # callback(step)
         self.on_quiescent = None  # callback()
         self.status = None
@@ -267,6 +273,11 @@ class SEvent(object):
     def set(self):
         self._s.yield_op(self.kind + ".set")
         self._flag = True
+        if self.kind in self._s.post_set:
+            # second scheduling point of a publishing operation: the flag is up (waiters are enabled, is_set() answers
+            # True) but set() has not returned to its caller yet - whatever the caller still writes after the call is
+            # written AFTER this point, and any other thread may run in between
+            self._s.yield_op(self.kind + ".published")
 
     def clear(self):
         self._s.yield_op(self.kind + ".clear")
